@@ -284,6 +284,8 @@ class Path:
         self.byte_cache = {}
         self.lazy = {}
         self.prog_temps = None
+        self.prog_vals = None  # truth values of the clauses evaluated so far (parallel to prog_temps, concrete ones included)
+        self.die_after = None  # number of obligations still to be stated before this path ends (see Config.clauses)
         self.def_ids = set()
         self.nproves = 0
         self.keep = []  # keeps z3 terms alive so that ids used as cache keys stay unique
@@ -485,6 +487,10 @@ class Path:
             gs = z3.simplify(g)
             if not z3.is_true(gs) and not z3.is_false(gs):
                 self.pc.append(g)
+        if self.die_after is not None:
+            self.die_after -= 1
+            if self.die_after <= 0:
+                raise Infeasible()
 
     # -- heap ---------------------------------------------------------------
     def alloc(self, hobj):
@@ -1136,6 +1142,8 @@ class Path:
                     return self.alloc(LObj(list(self.ev_Tuple(n))))
                 v = self.eval(e)
                 out.append(v)
+                if self.prog_vals is not None and not isinstance(v, Ref):
+                    self.prog_vals.append(v)
                 if isinstance(v, Sym) and v.k == 'bool':
                     self.pc.append(v.t)
                     self.prog_temps.append(v.t)
